@@ -59,6 +59,55 @@ def run(tier, seed, replay=None):
                 for w, obs, _, _ in sel:
                     model_cases.append((f"engine_obs3 {G.to_coq(e)} {coq_list(z(x) for x in w)}", obs[:3],
                                         {"pattern": G.show(e), "word": list(w)}))
+    # ---- symbols of mixed types that print alike (1 and "1", 1.5 and "1.5"): distinct symbols must stay distinct
+    from codelimit.common.gsm import matcher
+    rng = chk.rng
+    for _ in range(400 if tier == "quick" else 8000):
+        e = G.random_expr(rng, rng.randint(2, 9), atoms=[1, 2, 3, 4, 5, 6])
+        for _ in range(6):
+            w = tuple(rng.choice([1, 2, 3, 4, 5, 6]) for _ in range(rng.randint(0, 6)))
+            obs, _ = G.impl_obs(e, w, G.MIXED)
+            sm, sp = G.spec_match(e, w), G.spec_shortest_prefix(e, w)
+            chk.evaluations += 1
+            chk.count("mixed-type symbols")
+            if obs[0] != [0, sm] or obs[1] != [0, sm] or obs[2] != [0, [] if sp is None else [sp]]:
+                chk.violation({"pattern": G.show(e), "expr": e, "word": [repr(G.MIXED[x]) for x in w]},
+                              f"pattern {G.show(e)} over the symbols {G.MIXED} on {[G.MIXED[x] for x in w]}: match/nfa_match/starts_with "
+                              f"-> {obs[:3]}, language membership {sm}, shortest prefix {sp}")
+            elif sm:
+                chk.nontrivial.add(("mixed", e, w))
+            model_cases.append((f"engine_obs3 {G.to_coq(e)} {coq_list(z(x) for x in w)}", obs[:3], {"pattern": G.show(e), "word": list(w), "symbols": "mixed"}))
+    # ---- one pattern object used again after it was changed in place: every call must answer for the pattern as it is now
+    for _ in range(300 if tier == "quick" else 6000):
+        e1 = G.random_expr(rng, rng.randint(1, 6))
+        ex = G.to_impl(e1)
+        w = [rng.choice([1, 2, 3]) for _ in range(rng.randint(0, 5))]
+        first = [G.guarded(lambda: matcher.match(ex, w) is not None), G.guarded(lambda: matcher.starts_with(ex, w) is not None)]
+        how = rng.random()
+        if how < 0.4:
+            extra = G.random_expr(rng, rng.randint(1, 3))
+            ex.extend(G.to_impl(extra))
+            e2 = e1 + extra
+        elif how < 0.7 and len(e1) >= 2:
+            k = rng.randrange(len(e1))
+            del ex[k]
+            e2 = e1[:k] + e1[k + 1:]
+        else:
+            e2 = G.random_expr(rng, rng.randint(1, 6))
+            ex[:] = G.to_impl(e2)
+        if not e2:
+            continue
+        got = [G.guarded(lambda: matcher.match(ex, w) is not None), G.guarded(lambda: bool(matcher.nfa_match(ex, w))),
+               G.guarded(lambda: matcher.starts_with(ex, w) is not None)]
+        sm, sp = G.spec_match(e2, tuple(w)), G.spec_shortest_prefix(e2, tuple(w))
+        chk.evaluations += 1
+        chk.count("pattern object reused after an in-place change")
+        if got != [[0, sm], [0, sm], [0, sp is not None]]:
+            chk.violation({"first_pattern": G.show(e1), "pattern": G.show(e2), "expr": e2, "word": w},
+                          f"the pattern object first held {G.show(e1)} and was changed in place to {G.show(e2)}: on {w} "
+                          f"match/nfa_match/starts_with -> {got}, the language of the current pattern says {sm}/{sm}/{sp is not None}")
+        elif sm:
+            chk.nontrivial.add(("reuse", e2, tuple(w)))
     chk.samples = [c for _, _, c in model_cases[1000:1004]] or chk.samples
     if model_ok:
         mism, err = eval_cases("C13", IMPORTS, [(m, o) for m, o, _ in model_cases], shard=500)
